@@ -61,6 +61,10 @@ class Level(enum.Enum):
 @dataclasses.dataclass
 class Holder:
     item: BaseDC = None
+@dataclasses.dataclass
+class NoInit:
+    a: int = 0
+    t: int = dataclasses.field(init=False, default=9)
 '''
 OTHER_A = "import dataclasses\n@dataclasses.dataclass\nclass Thing:\n    x: int\ndef call1(f, *a, **k):\n    return f(*a, **k)\n"
 OTHER_B = "import dataclasses\n@dataclasses.dataclass\nclass Thing:\n    x: str\ndef call1(f, *a, **k):\n    return f(*a, **k)\n"
@@ -187,6 +191,19 @@ def alphabet():
     ma("m(Holder(DerivedDC))", "struct", Holder, lambda: Holder(DerivedDC(1, 2)))
     ma("m(Holder(BaseDC))", "struct", Holder, lambda: Holder(BaseDC(1)))
     ma("m(Holder({'a':1}))", "struct", Holder, lambda: Holder({"a": 1}))
+    NoInit = m["NoInit"]
+    # a dataclass with a field the constructor does not take: what one direction learns about the class must not change the other
+    um("u(NoInit,{'a':'1'})", "noinit", NoInit, lambda: {"a": "1"})
+    ma("m(NoInit(1))", "noinit", NoInit, lambda: NoInit(1))
+    ops.append(Op("build-u(NoInit)", "noinit", "build", lambda x: type(typelib.unmarshaller(NoInit)).__name__, lambda: None))
+    ops.append(Op("build-m(NoInit)", "noinit", "build", lambda x: type(typelib.marshaller(NoInit)).__name__, lambda: None))
+    ops.append(Op("encode(NoInit(1))", "noinit", "encode", lambda x: typelib.encode(x, t=NoInit), lambda: NoInit(1)))
+    # mapping KEYS that are equal but not the same (equal instants, 1 == 1.0 == True): each call converts its own key
+    ma("m({dt+00:00:1})", "temporal", lambda: dict[datetime.datetime, int], lambda: {d1: 1})
+    ma("m({dt+02:00:1})", "temporal", lambda: dict[datetime.datetime, int], lambda: {d2: 1})
+    ma("m({1:'x'},dict[str,str])", "num", lambda: dict[str, str], lambda: {1: "x"})
+    ma("m({1.0:'x'},dict[str,str])", "num", lambda: dict[str, str], lambda: {1.0: "x"})
+    ma("m({True:'x'},dict[str,str])", "num", lambda: dict[str, str], lambda: {True: "x"})
     ops.append(Op("build-codec(list[int])", "json", "build", lambda x: type(typelib.codec(list[int])).__name__, lambda: None))
     ops.append(Op("ENV:mutate-results", "env", "env", None))
     ops.append(Op("ENV:mutate-inputs", "env", "env", None))
